@@ -137,7 +137,7 @@ class SchedReal:
                 fut = asyncio.Future(loop=me.loop)
                 fut.set_exception(ItemError(i))
                 return fut
-            c = i + 10
+            c = i + 100
             if k == "addcb":
                 io.add_callback(me._callable(c, "raise" if a == 1 else "noop", 0), c, tag=c)
             elif k == "addfut":
